@@ -66,6 +66,17 @@ pub fn check_c06(r: &PortableRegistry) -> Vec<Violation> {
         Ok((_, n)) => v.push(viol(&format!("refdecode-of-lib-encode:{}", kind(r)), format!("reference decoder reads a different registry from the library's bytes (consumed {n} of {})", lib.len()), r)),
         Err(e) => v.push(viol(&format!("refdecode-of-lib-encode:{}", kind(r)), format!("reference decoder rejects the library's bytes: {e}"), r)),
     }
+    // the V14 bytes through the depth-limited entry point (an encoded registry nests 5 levels)
+    {
+        use scale::DecodeLimit;
+        let rb = reference.clone();
+        match catch(move || PortableRegistry::decode_all_with_depth_limit(16, &mut &rb[..])) {
+            Ok(Ok(d)) if d == *r => {}
+            Ok(Ok(_)) => v.push(viol(&format!("libdecode-depth-limited:{}", kind(r)), "decode_all_with_depth_limit(16) of the V14 bytes gives a different registry".into(), r)),
+            Ok(Err(e)) => v.push(viol(&format!("libdecode-depth-limited:{}", kind(r)), format!("decode_all_with_depth_limit(16) rejects the V14 bytes: {e}"), r)),
+            Err(p) => v.push(viol("decode-panic", format!("decode_all_with_depth_limit panicked: {p}"), r)),
+        }
+    }
     let refbytes = reference.clone();
     match catch(move || {
         let mut s = &refbytes[..];
@@ -325,7 +336,15 @@ pub fn run(id: &str, thorough: bool) -> i32 {
             Ok(v) => v,
             Err(p) => vec![viol("panic", format!("panicked: {p}"), r)],
         };
-        (h64(&r.encode()), h64(&format!("{r:?}")), vs)
+        // the encoding is needed for the collision table; an encoder that panics is a violation, not a crash of the engine
+        match catch(std::panic::AssertUnwindSafe(|| h64(&r.encode()))) {
+            Ok(h) => (h, h64(&format!("{r:?}")), vs),
+            Err(p) => {
+                let mut vs = vs;
+                vs.push(viol("encode-panic", format!("encode() panicked: {p}"), r));
+                (h64(&format!("{r:?}")), h64(&format!("{r:?}")), vs)
+            }
+        }
     };
     let mut res: Vec<(u64, u64, &'static str, Vec<Violation>)> = regs
         .par_iter()
